@@ -31,7 +31,7 @@ ASSUMPTIONS = [
     "refinement clause: x <= 0.7 and no shifted convolution point of a massive kernel (x(1+m2/Q2), x(1+sqrt(1+4m2/Q2))/2) inside (0.7, 1): "
     "closer to 1 the test PDFs (1-x)^b fall by orders of magnitude within one cell and the envelopes do not apply (seed 13: intrinsic charm at 0.956)",
 ]
-BUDGET = {"quick": {"examples": 1600, "wall": 560, "min_evaluations": 300}, "thorough": {"examples": 8000, "wall": 2400, "min_evaluations": 2000}}
+BUDGET = {"quick": {"examples": 1600, "wall": 560, "min_evaluations": 300}, "thorough": {"examples": 25000, "wall": 2400, "min_evaluations": 2000}}
 MANDATORY = {t: ["nontrivial", "clause:refine", "clause:node", "class:fine", "class:coarse", "mode:linear", "sv:on", "pto:2", "scheme:massive", "tmc:on"] for t in ("quick", "thorough")}
 SHRINK = {"quick": False, "thorough": True}
 
